@@ -1301,13 +1301,29 @@ class _Ops:
         if which == "call":
             cpts = x.obj.grid().coords().unsqueeze(0) if op.get("cgrid") else self.pts(op["pseed"], self.batch_of(x.obj))
 
+        faxes = op.get("faxes") if which == "flow" else None
+
         def f(t):
             if which == "call":
                 return t(cpts, grid=bool(op.get("cgrid")))
             if which == "tensor":
                 return t.tensor()
             if which == "flow":
-                return t.flow(g).tensor() if g is not None else t.flow().tensor()
+                fl = t.flow(g) if g is not None else t.flow()
+                if faxes and t is x.obj:
+                    # a read-only query on the flow field the transform handed out (conversion to other axes): what the
+                    # transform holds and what it answers afterwards must be what it was
+                    from deepali.core.grid import Axes as _Axes
+
+                    held0 = self._holds(t)
+                    first = fl.tensor().detach().clone()
+                    fl.axes(_Axes(faxes))
+                    again = (t.flow(g) if g is not None else t.flow()).tensor()
+                    self.c["checks"]["flow_query_leaves_transform"] += 1
+                    if self._holds(t) != held0 or not close(again, first)[0]:
+                        self._query_changed = True
+                    return first
+                return fl.tensor()
             return t.disp(g) if g is not None else t.disp()
 
         k = op.get("interrupt")
@@ -1335,6 +1351,12 @@ class _Ops:
                 return StepResult("ok", which + "-raised-unknown")
             return StepResult("ok", which + "-raised", [self.viol("C09", "raises", x, which, self.exc_detail(d))])
         out = StepResult("ok", digest_bytes(tdig(d)) if valid else which + "-unjudged")
+        if getattr(self, "_query_changed", False):
+            self._query_changed = False
+            self.set_buf(x, "unknown")
+            self.related_unknown(x, include_self=True)
+            out.violations.append(self.viol("C09", "query-changed-state", x, "flow().axes(" + str(faxes) + ")", {}))
+            return out
         # model effect: a non-rigid transform with cleared buffers updates lazily
         for e in self.elems(x):
             if family(e.obj) in ("dense", "spline") and e.buf == "cleared":
@@ -2939,7 +2961,9 @@ class _Gen:
         x = rng.choice(fresh) if fresh and rng.chance(0.8) else self.pick(rng)
         if x is None:
             return None
-        op = {"op": "disp", "h": x.hid, "which": rng.weighted([("disp", 6), ("tensor", 2), ("flow", 1)])}
+        op = {"op": "disp", "h": x.hid, "which": rng.weighted([("disp", 6), ("tensor", 2), ("flow", 1.5)])}
+        if op["which"] == "flow" and rng.chance(0.5):
+            op["faxes"] = rng.choice(["grid", "cube", "cube_corners", "world"])
         if op["which"] != "tensor" and rng.chance(0.2):
             op["grid"] = gen.grid_desc(rng, self.D, 6, 12 if self.D == 2 else 8)
             op["grid"]["center"] = list(self.base_grid_desc["center"])
@@ -3292,7 +3316,7 @@ class XformEngine:
             o = dict(op)
             o.pop("via")
             out.append(o)
-        for key in ("nograd", "arm", "inv_first", "thru", "near_edge"):
+        for key in ("nograd", "arm", "inv_first", "thru", "near_edge", "faxes"):
             if op.get(key):
                 o = dict(op)
                 o.pop(key)
